@@ -466,7 +466,16 @@ func (r *Reader) PageCount() (int, error) {
 	if err := r.ensurePageTree(); err != nil {
 		return 0, err
 	}
-	return r.pageTree.Count()
+	count, err := r.pageTree.Count()
+	if err != nil {
+		return 0, err
+	}
+	// /Count is a number written in the file; callers size slices and loops from it. Every page
+	// is an indirect object, so a document cannot have more pages than objects.
+	if count < 0 || count > r.xrefTable.Size() {
+		return 0, fmt.Errorf("invalid page count %d in a file with %d objects", count, r.xrefTable.Size())
+	}
+	return count, nil
 }
 
 // GetPage returns the page at the given index (0-based)
